@@ -51,6 +51,11 @@ def c20(ctx):
              "library's -- no code under src/cli mutates LinterResult.diags, and the chain from diags to the printed segments only maps and "
              "flattens (no filter / dedup / skip / take / rev)")
     hand_through_rule(ctx, "C20.R5")
+    rep.rule("C20.R7", "the library's texts are printed as they are: in cli::linter::colorized the issue text and each suggestion go into the output "
+             "through styling only (colored::Colorize methods) -- nothing splits, trims or rebuilds them (`lines()` swallows a CR); and the "
+             "message of a parse / runtime error is `to_string()` of the library's error handed straight to a styling method, after the prefix "
+             "-- nothing abbreviates or rewrites it")
+    texts_unchanged_rule(ctx, "C20.R7")
     rep.rule("C20.R6", "the real stdout gets what the library's writer gets: Environment::output makes one *complete* write per say (write_fmt / "
              "write_all; a bare `write` may be cut short by the line-buffered process stdout and not by a Vec) -- C08.R1 and the fault table "
              "C08.R7 re-checked here")
@@ -318,6 +323,62 @@ def c20(ctx):
         ok = len(gm) == 1 and any(flows_into(cli, gm[0][0], tt["args"][0]) for tb, tt in tries)
         rep.ob("C20.R3", "usage-errors-propagated", ok, "" if ok else "the clap result is not propagated with `?` (bad usage would exit 0)", cli.loc(), how="try_get_matches_from(args)?")
 
+
+
+def texts_unchanged_rule(ctx, rule):
+    F, rep = ctx.F, ctx.rep
+    TEXT_OPS = {"lines", "split", "split_whitespace", "trim", "trim_end", "trim_start", "replace", "to_lowercase", "to_uppercase", "chars", "char_indices",
+                "strip_prefix", "strip_suffix", "truncate", "get", "index", "split_at", "splitn", "rsplit", "split_terminator", "escape_debug", "escape_default",
+                "trim_matches", "trim_end_matches", "trim_start_matches", "repeat", "bytes", "as_bytes", "from_utf8_lossy", "split_once", "nth", "take", "skip"}
+    col = F.fn("cli::linter::colorized")
+    if col is None:
+        rep.fail(rule, "anchor::colorized", "cli::linter::colorized not found")
+    else:
+        rep.analysed(col)
+        bad = set()
+        for b in F.with_closures(col):
+            for bi, t in b.calls():
+                nm = t["callee"].get("name") or ""
+                if nm not in TEXT_OPS or not t["args"]:
+                    continue
+                fields = {p for d, p in kind_deep(b, t["args"][0]) if d[0] == "param"}
+                if any("issue" in p or "suggestions" in p for p in fields) or b.kind == "closure":
+                    bad.add(nm)
+        ok = not bad
+        rep.ob(rule, "diagnostic-texts-styled-only", ok, "" if ok else "colorized applies %s to the library's diagnostic text: what is printed is no longer the text the library reported" % sorted(bad), col.loc(), how="styling only")
+    n = 0
+    for fn in F.all_fns(tests=False):
+        if fn.file != "src/cli/error.rs" or "std::convert::From<" not in fn.path or not fn.path.endswith("::from"):
+            continue
+        ts = [(bi, t) for bi, t in fn.calls() if t["callee"].get("name") == "to_string" and any(d == ("param", 1) for d, _ in kind_deep(fn, t["args"][0]))]
+        if not ts:
+            continue
+        n += 1
+        rep.analysed(fn)
+        bi, t = ts[0]
+        users, frontier, seen_ = [], [bi], set()
+        while frontier:
+            src = frontier.pop()
+            if src in seen_:
+                continue
+            seen_.add(src)
+            for b2, t2 in fn.calls():
+                if b2 != src and any(d == ("call", src) for a in t2["args"] for d, _ in origins(fn, a)):
+                    if t2["callee"].get("name") in ("deref", "as_str", "as_ref", "borrow"):
+                        frontier.append(b2)
+                    else:
+                        users.append((b2, t2))
+        names = [t2["callee"].get("name") for b2, t2 in users]
+        styled = [t2 for b2, t2 in users if t2["callee"].get("trait") == "colored::Colorize" or (callee_def(t2) or "").startswith("colored::")]
+        inter = [x for x in names if x not in ("deref", "as_str", "as_ref", "borrow") and x not in [s_["callee"].get("name") for s_ in styled]]
+        ok = len(ts) == 1 and bool(styled) and not inter
+        if ok:
+            # through deref only: the styled argument is the string itself
+            pass
+        rep.ob(rule, "error-text-is-to_string::%s" % fn.path.split(" as ")[0].lstrip("<").rsplit("::", 1)[-1] if False else "error-text-is-to_string::%d" % n, ok,
+               "" if ok else "%s passes the library's error text through %s before printing it: the message on stderr is not the library's" % (fn.path, inter or "no styling call"),
+               fn.loc(t["line"]), how="p.to_string().normal()")
+    rep.floor(rule, n, 2, "conversions of library errors in src/cli/error.rs")
 
 
 def render_rule(ctx, rule):
